@@ -2,11 +2,34 @@ _CGO = {"CGO_CFLAGS": "-I/verif/harness/cstubs"}
 PROP = dict(
     level="exploration",
     design_ref="DESIGN.md §3 C24",
-    technique="differential testing of three implementations (Go daemon, snap-confine C, snap-update-ns C) on exhaustively enumerated short strings, token-level tag enumerations and rapid-generated strings at the length limits; C side under ASan+UBSan",
-    level_text="TODO",
-    level_note="TODO",
-    rule="TODO",
-    assumptions=[],
+    technique="differential testing of three implementations (Go daemon, snap-confine C, snap-update-ns C/cgo) on exhaustively enumerated short strings, "
+              "token-level security tag enumerations and rapid-generated strings at the 40/10/51/256 length limits; generation law for app/hook tags; "
+              "C side built from the tree under test with ASan+UBSan",
+    level_text="Every byte string up to length 5 (quick) / 7 (thorough) over a covering alphabet (one or two representatives per character class any validator "
+               "distinguishes), every string one longer over one representative per class, and every single-byte substitution/insertion (all 255 byte values) in "
+               "well formed templates is judged by sc_snap_name_validate, sc_instance_name_validate, sc_instance_key_validate, sc_snap_component_validate, "
+               "snap-update-ns validate_snap_name / validate_instance_name (plain C build and the cgo build linked into snap-update-ns) and by the daemon's "
+               "naming.ValidateSnap / ValidateInstance / ComponentRef.Validate: verdicts must be equal. Security tags: all token sequences over "
+               "{snap . + hook ab _ 1 A - \\n} up to 3/4 tokens, 'snap.' followed by up to 4/6 tokens, the 1 (quick) / 2 (thorough) token-edit neighbourhoods of eight well "
+               "formed app, hook and component-hook tags and a boundary-byte sweep are run through the call sequence of sc_init_invocation in several "
+               "(instance, component) contexts and compared with naming.ParseSecurityTag. rapid extends this to names of length 38-42, keys 9-12, "
+               "instances 49-53 and tags of length 250-260 with one generated defect. The generation law builds snap.yaml documents, and for those "
+               "snap.Validate accepts checks that every AppInfo/HookInfo.SecurityTag() passes snap-confine. Complete within the enumeration bounds, sampled beyond.",
+    level_note="The C validators are compiled from $VERIF_REPO into a driver (harness/cdrv/c24drv.c) and run in the C locale like the real binaries; the "
+               "driver reproduces the validation order of sc_init_invocation but not the rest of snap-confine. Tags longer than 256 bytes are outside the "
+               "compared domain (property statement) except in the generation law. sc_is_hook_security_tag is not part of the statement: its disagreements with "
+               "the daemon's hook/app classification of accepted tags are only counted (extra: observation:is-hook-classification-differs).",
+    rule="names: all strings over the alphabet {a,z,0,9,-,_,.,+,A,space,0x80} up to length L (L=5 quick, 7 thorough), all strings of length L+1 over {a,0,-,_,+,.,A}, "
+         "byte sweep of templates; tags: token sequences, token-edit neighbourhoods and byte sweep of well formed tags, each in the context the tag names itself "
+         "and in neighbouring contexts (instance one character shorter/longer, key added/dropped, component set/unset/changed); random: well formed "
+         "name/key/instance/snap+component/tag at a length limit with at most one defect, or raw bytes; genlaw: snap.yaml with generated snap name, instance key, "
+         "apps, hooks, component hooks. Non-trivial = some implementation accepts the string (tag: the invocation), or it is one edit away from an accepted one; "
+         "genlaw: at least one tag was generated. Distinct by construction in the enumerations, by hash of the case elsewhere.",
+    assumptions=["candidate strings are NUL-free byte strings (they arrive as C strings: argv / environment)",
+                 "snap-confine's precondition order is the one of sc_init_invocation: instance name, then snap+component against the instance, then the tag",
+                 "the daemon's instance key rule is observed through naming.ValidateInstance(\"aa_\"+key); its snap+component rule through "
+                 "SplitFullComponentName + ComponentRef.Validate; SNAP_COMPONENT_NAME is ComponentRef.String() (snap/snapenv)",
+                 "ASan runs with a 4 MB quarantine and without leak detection (speed); any sanitizer report, die() or crash of the C side is a violation"],
     engines=[
         gt("names", "snap/naming", "TestVerifC24Names", dict(shards=2), dict(shards=16), rapid=False),
         gt("tags", "snap/naming", "TestVerifC24Tags", dict(shards=2), dict(shards=16), rapid=False),
